@@ -22,6 +22,8 @@ MODES = {
     "insert_python-runlast-replace": (lambda p: p.insert_python("a1", 2, module="vp_sink", attr="hit", run_first=False,
                                                                 use_output_as_unpickle_result=True), ("a1", 2), "replace"),
     "insert_python-listarg": (lambda p: p.insert_python(["x", 1], {"k": 2}, module="vp_sink", attr="hit"), (["x", 1], {"k": 2}), "keep"),
+    "insert_python-nested-single": (lambda p: p.insert_python([{}], [["a"]], {"k": [[1, 2]]}, [[]], module="vp_sink", attr="hit"),
+                                    ([{}], [["a"]], {"k": [[1, 2]]}, [[]]), "keep"),
     "insert_python-boolint": (lambda p: p.insert_python(1, True, 0, False, module="vp_sink", attr="hit"), (1, True, 0, False), "keep"),
     "insert_python-intbool": (lambda p: p.insert_python(True, 1, False, 0, module="vp_sink", attr="hit"), (True, 1, False, 0), "keep"),
     "insert_python-int-boundaries": (lambda p: p.insert_python(2**31, -(2**31), 2**31 - 1, 2**32, 65536, 0, 127, 128, 200, 255, 32768, 40000, 65535,
